@@ -26,7 +26,9 @@ before: files it changes, reject files and quilt backups are fresh objects; ever
 inode keeps its bytes and its mode. -/
 theorem C15_old_inodes_intact (cfg : Cfg) (w : World) (hw : FSWF w.fs) (hf : w.faultAt = none) :
     OldInodesIntact w.fs (push cfg w).2.fs := by
-  sorry
+  -- the well-formedness hypothesis is not needed: freshness only compares against the initial `nextIno`
+  have _ := hw
+  exact (push_inv (cfg := cfg) (w := w) ⟨hf, FS.Inv.refl w.fs⟩).2.2
 
 /-! ### non-vacuity: a file system with one file satisfies `WF` -/
 example : FSWF { nodes := [([[102]], .file [97, 10] 0o644 1)], nextIno := 2 } := by
